@@ -141,6 +141,9 @@ func Run(spec *Spec, mainFn func()) *Result {
 	res := &Result{Probes: Probes}
 	r := &rng{s: spec.Seed*0x9E3779B97F4A7C15 + 1}
 	SetClock(time.Now)
+	// operations issued by package initialisers (creation of ~/.yardl/cache) precede the run
+	OpLog = nil
+	opSeq = 0
 
 	for _, d := range spec.Dirs {
 		TheFS.MkdirAllRaw(d)
